@@ -822,8 +822,16 @@ def group_by(table: Table, *cols: Col | ColName | str, add=False) -> Pipeable:
                 )
             raise ValueError(f"cannot group by non-selected column `{col.ast_repr()}`")
 
+    # A column listed twice, or listed again with `add=True`, is grouped by once.
+    seen = set(table._cache.partition_by) if add else set()
+    group_cols = []
+    for col in (preprocess_arg(col, table) for col in cols):
+        if col._uuid not in seen:
+            seen.add(col._uuid)
+            group_cols.append(col)
+
     new = copy.copy(table)
-    new._ast = GroupBy(table._ast, [preprocess_arg(col, table) for col in cols], add)
+    new._ast = GroupBy(table._ast, group_cols, add)
 
     return new
 
